@@ -257,6 +257,90 @@ def extract(ctx):
     X.expect(len(branch) == 1, '_handle_cmd_info_details: MemoryTester branch not found')
     g.strings('testerWiring', sorted(ast.unparse(n) for st_ in branch[0].body for n in ast.walk(st_)
                                      if isinstance(n, ast.Call) and ast.unparse(n.func).endswith('.add_callback')))
+    # ---- the DeckMemoryManager client (its own pending-request records) ----
+    dt = X.parse('cflib/crazyflie/mem/deck_memory.py')
+    mgr = X.find(dt, 'DeckMemoryManager')
+    consts = {}
+    for n in mgr.body:
+        if isinstance(n, ast.Assign) and len(n.targets) == 1 and isinstance(n.targets[0], ast.Name):
+            try:
+                consts[n.targets[0].id] = eval(compile(ast.Expression(n.value), '<deck>', 'eval'), {'__builtins__': {}}, dict(consts))
+            except Exception:
+                pass
+    for k in ('INFO_SECTION_ADDRESS', 'SIZE_OF_INFO_SECTION', 'SUPPORTED_VERSION', 'SIZE_OF_VERSION', 'SIZE_OF_DECK_MEM_INFO',
+              'MAX_NR_OF_DECK_MEM_INFOS'):
+        X.expect(isinstance(consts.get(k), int), 'DeckMemoryManager.%s not found' % k)
+    g.nat('deckInfoAddr', consts['INFO_SECTION_ADDRESS'])
+    g.nat('deckInfoSize', consts['SIZE_OF_INFO_SECTION'])
+    g.nat('deckSupportedVersion', consts['SUPPORTED_VERSION'])
+    dm = X.find(dt, 'DeckMemory')
+    psc = X.struct_calls(X.find(dm, '_parse'))
+    X.expect(psc and psc[0]['fmt'] is not None, 'DeckMemory._parse: first struct call not found')
+    g.string('deckParseHeadFmt', psc[0]['fmt'])
+    g.strings('deckParseHeadArgs', psc[0]['args'])
+    # shortest info section whose last record still has the two flag bytes `_parse` unpacks outside its try block
+    g.nat('deckMinInfoLen', consts['SIZE_OF_VERSION'] + consts['SIZE_OF_DECK_MEM_INFO'] * (consts['MAX_NR_OF_DECK_MEM_INFOS'] - 1)
+          + struct.calcsize(psc[0]['fmt']))
+    pis = X.find(mgr, '_parse_info_section')
+    g.strings('deckParseInfoCompares', X.compares(pis))
+    g.strings('deckParseInfoLoop', [ast.unparse(n.target) + ' in ' + ast.unparse(n.iter) for n in ast.walk(pis) if isinstance(n, ast.For)])
+    g.strings('deckParseInfoAssigns', [s_ for s_ in _assign_texts(pis) if s_.split(' = ')[0] in ('version', 'start', 'end')])
+
+    def stmts(fn):
+        # the statements of a function in source order, one line each, docstring and logging dropped
+        out = []
+
+        def walk(body, depth):
+            for n in body:
+                if isinstance(n, ast.Expr) and isinstance(n.value, ast.Constant):
+                    continue
+                if isinstance(n, ast.Expr) and ast.unparse(n).startswith('logger.'):
+                    continue
+                if isinstance(n, ast.If):
+                    out.append('%sif %s:' % ('  ' * depth, ast.unparse(n.test)))
+                    walk(n.body, depth + 1)
+                    if n.orelse:
+                        out.append('%selse:' % ('  ' * depth))
+                        walk(n.orelse, depth + 1)
+                elif isinstance(n, ast.Try):
+                    out.append('%stry:' % ('  ' * depth))
+                    walk(n.body, depth + 1)
+                    for hnd in n.handlers:
+                        out.append('%sexcept %s:' % ('  ' * depth, ast.unparse(hnd.type) if hnd.type else ''))
+                        walk(hnd.body, depth + 1)
+                else:
+                    out.append('  ' * depth + ast.unparse(n))
+        walk(fn.body, 0)
+        return out
+    for name in ('query_decks', '_read', '_write', '_new_data', '_new_data_failed', '_write_done', '_write_failed',
+                 '_clear_query_cb', '_clear_read_cb', '_clear_write_cb', 'disconnect'):
+        g.strings('deck' + ''.join(w.capitalize() for w in name.strip('_').split('_')) + 'Body', stmts(X.find(mgr, name)))
+    ndf = stmts(X.find(mgr, '_new_data_failed'))
+    X.expect(ndf and ndf[0] == 'if mem.id == self.id:' and '  if addr == self.INFO_SECTION_ADDRESS:' in ndf and '  else:' in ndf,
+             '_new_data_failed: shape not understood')
+    qpart = ndf[ndf.index('  if addr == self.INFO_SECTION_ADDRESS:') + 1:ndf.index('  else:')]
+    rpart = ndf[ndf.index('  else:') + 1:]
+    g.raw('def deckQueryFailNotifies : Bool := %s' % ('true' if any('_query_failed_cb' in l for l in qpart) and any('tmp_cb(' in l for l in qpart) else 'false'))
+    X.expect(any(l.strip() == 'self._clear_read_cb()' for l in rpart), '_new_data_failed: the read record is never cleared')
+    g.raw('def deckReadFailClearsAlways : Bool := %s' % ('true' if '    self._clear_read_cb()' in rpart else 'false'))
+    wf = stmts(X.find(mgr, '_write_failed'))
+    guarded = any(l.strip().startswith('if tmp_cb') for l in wf)
+    g.raw('def deckWriteFailGuard : Bool := %s' % ('true' if guarded else 'false'))
+
+    def read_checked(fn):
+        calls = [n for n in ast.walk(fn) if isinstance(n, ast.Call) and ast.unparse(n.func) == 'self.mem_handler.read']
+        X.expect(len(calls) == 1, fn.name + ': expected one mem_handler.read call')
+        par_ = _parents(fn)
+        return not isinstance(par_[calls[0]], ast.Expr)
+    rc1, rc2 = read_checked(X.find(mgr, 'query_decks')), read_checked(X.find(mgr, '_read'))
+    X.expect(rc1 == rc2, 'query_decks and _read treat the result of mem_handler.read differently')
+    g.raw('def deckReadAcceptedCheck : Bool := %s' % ('true' if rc1 else 'false'))
+    g.strings('deckMemoryReadBody', stmts(X.find(dm, 'read')))
+    g.strings('deckMemoryWriteBody', stmts(X.find(dm, 'write')))
+    branch = [n for n in ast.walk(det) if isinstance(n, ast.If) and ast.unparse(n.test) == 'mem_type == MemoryElement.TYPE_DECK_MEMORY']
+    X.expect(len(branch) == 1, '_handle_cmd_info_details: DeckMemoryManager branch not found')
+    g.strings('deckWiring', sorted(ast.unparse(n) for st_ in branch[0].body for n in ast.walk(st_)
+                                   if isinstance(n, ast.Call) and ast.unparse(n.func).endswith('.add_callback')))
     return {'C06.lean': g.render()}
 
 
